@@ -125,7 +125,7 @@ RULES = {
     "C02": "Same histories; after every event current_size() == u128 sum of entry_size(key,value) over held entries == sum of the sizes recorded inside the entries (hook), len() == number of entries, current_size()==0 iff is_empty(), each recorded size == entry_size of its pair. distinct = (operation kind, #departures class, target position, reallocated?, outcome, length class).",
     "C03": "Histories that keep the cache full; for each event the set of entries that left is compared with the shortest LRU prefix computed (u128) from the pre-state's recorded sizes; evicted keys' drop order must be LRU order. distinct = (operation kind, #evictions class, exact-fit/one-over, target position, key present?, hasher).",
     "C04": "Histories over tiny key universes, all hashers incl. constant, owned and borrowed key forms, reallocation anywhere; every return value and every lookup of every id after every event is compared with unique-id map semantics computed from the pre-state; untouched keys must keep their (key uid, value uid). distinct = (operation kind, target position, present?, hasher, reallocated?, length class, key form).",
-    "C05": "Histories with promotions at every position and reallocation in between; after each event the order of the survivors (hook walk, iter, rev, keys, values, peek_lru/mru, parsed Debug) must equal spec(pre-order, operation). distinct = (operation kind, target position, reallocated?, length class, promoting?, #departures class).",
+    "C05": "Histories with promotions at every position and reallocation in between; after each event the order of the survivors (hook walk, iter, rev, keys, values, peek_lru/mru, parsed Debug) must equal spec(pre-order, operation) (Debug output is only required to show exactly the entries held; its order is recorded, not judged). distinct = (operation kind, target position, reallocated?, length class, promoting?, #departures class).",
     "C06": "Identity-level drop ledger: every key/value object has a unique id; after every event 'objects alive == objects in the caches + objects handed back' and no id is ever dropped twice; histories end by drop, clear, drain, into_iter/into_keys/into_values consumed from either end for any number of steps; plus every next/next_back string on owning iterators for small lengths; plus the same exactly-once ledger over type configurations that differ in drop glue (LruCache<TKey,u64>, <u32,TVal>, <TKey,&str>, <TKey,TVal>) with every way of ending; the same workloads under AddressSanitizer+LeakSanitizer and Miri (leak check on). distinct = (operation kind, #drops class, #handed back, #caches, outcome).",
     "C07": "Observation gate after every event: hook walk forward == reverse(backward), == len(), node set == occupied buckets, link symmetry (G1); iter/rev/keys/values/peek_lru/peek_mru == walk (G2); contains/peek/peek_entry of every id (both key forms) find exactly the walked node (G3); returned references point into the walked nodes. Reallocation-heavy histories natively, under ASan (caches to thousands of entries) and under Miri. distinct = (operation kind, length class, reallocated?, hasher, post length class).",
     "C12": "Exhaustive enumeration: for each of the 7 iterator kinds, every cache length 0..=N and EVERY string over {next, next_back} of length <= len+3 (calls past exhaustion and drop-after-prefix included), on caches whose list order differs from bucket order, followed by further use of the cache; plus random strings on lists up to 60. Yields compared with the spec computed from the observed pre-state; drain aftermath; ledger for unconsumed entries. distinct = (kind, length, #calls, #backs, call-string bits).",
